@@ -16,7 +16,7 @@ func (p *prop) Generate(rng *core.Rand, tier string, emit func(string)) {
 	if p.corpus == nil {
 		p.corpus = loadCorpus()
 	}
-	nSort, nSite, nMut, nGram, nRaw, nLeak := 20000, 1800, 4000, 2000, 1200, 250
+	nSort, nSite, nMut, nGram, nRaw, nLeak := 20000, 1800, 3500, 1800, 1000, 200
 	nRec, nImp := 3500, 2000
 	switch tier {
 	case "thorough":
@@ -49,6 +49,14 @@ func (p *prop) Generate(rng *core.Rand, tier string, emit func(string)) {
 	rsite := rng.Fork()
 	for i := 0; i < nSite; i++ {
 		emit(genSiteCase(rsite))
+	}
+	// ---- processes adapting several files in turn (order options) and import-argument indices vs model
+	rh := rng.Fork()
+	for i := 0; i < nSite/3; i++ {
+		emit(genHistCase(rh))
+	}
+	for i := 0; i < nSite/4; i++ {
+		emit(genArgIdxCase(rh))
 	}
 	// ---- token-level mutations of the corpus
 	rm := rng.Fork()
